@@ -53,6 +53,29 @@ pub fn build(base: &Path, spec: &TreeSpec) -> Result<PathBuf, String> {
         }
         all.push(p);
     }
+    if spec.meta_mode != 0 {
+        use std::os::unix::fs::PermissionsExt;
+        const FILE_MODES: [u32; 12] = [0o644, 0o444, 0o600, 0o755, 0o640, 0o400, 0o4755, 0o664, 0o666, 0o777, 0o2755, 0o1644];
+        const DIR_MODES: [u32; 6] = [0o755, 0o700, 0o711, 0o1777, 0o2775, 0o750];
+        let m = spec.meta_mode as usize;
+        let links = base.join(".hl");
+        fs::create_dir_all(&links).map_err(|e| format!("mkdir {:?}: {}", links, e))?;
+        for (i, e) in spec.entries.iter().enumerate() {
+            let p = base.join(&e.path);
+            match &e.kind {
+                EntryKind::File(_) => {
+                    if (i + m) % 4 == 0 {
+                        fs::hard_link(&p, links.join(format!("{}", i))).map_err(|e| format!("link {:?}: {}", p, e))?;
+                    }
+                    fs::set_permissions(&p, fs::Permissions::from_mode(FILE_MODES[(i + m) % FILE_MODES.len()])).map_err(|e| format!("chmod {:?}: {}", p, e))?;
+                }
+                EntryKind::Dir => {
+                    fs::set_permissions(&p, fs::Permissions::from_mode(DIR_MODES[(i + m) % DIR_MODES.len()])).map_err(|e| format!("chmod {:?}: {}", p, e))?;
+                }
+                EntryKind::Symlink(_) => {}
+            }
+        }
+    }
     // fixed mtimes, deepest first so that directory mtimes stay as set
     let mut every: Vec<PathBuf> = vec![];
     collect(base, &mut every);
